@@ -44,7 +44,7 @@ CloseRel(w, v, k) == Micro(RAbs(RSub(w, v))) <= k * MaxI(1, CeilAbs(v))
 IntIdx(ev) == SelectSeq([i \in 1..NV(ev) |-> i], LAMBDA i : ev.vars[i].kind \in {"bool", "int"})
 ContIdx(ev) == SelectSeq([i \in 1..NV(ev) |-> i], LAMBDA i : ev.vars[i].kind \in {"real", "nnreal"})
 IntRange(v) == IF v.kind = "bool" THEN 0..1 ELSE (-((-v.lo.n) \div v.lo.d))..(v.hi.n \div v.hi.d)
-\* rows over <<T>> \o continuous columns, integers fixed by `fx` (index -> int), all scaled by den
+\* rows over <<T>> \o continuous columns, integers fixed by `fx` (index -> integer value); coefficients and right-hand sides are the den-scaled integers on both sides
 Dot(a, fx, ii, k) == LET f(j) == a[ii[j]] * fx[ii[j]] IN SumI(f, 1, k)
 RowLE(ev, r, fx, neg) ==
    LET m == IF neg THEN -1 ELSE 1
@@ -86,7 +86,7 @@ Enum(ev, fx, k) ==
    ELSE LET rng == IntRange(ev.vars[ii[k]])
             RECURSIVE Over(_)
             Over(x) == IF x > CHOOSE m \in rng : \A y \in rng : y <= m THEN [st |-> "inf"]
-                       ELSE Join(Enum(ev, fx @@ (ii[k] :> x * ev.den), k + 1), Over(x + 1))
+                       ELSE Join(Enum(ev, fx @@ (ii[k] :> x), k + 1), Over(x + 1))
         IN  IF rng = {} THEN [st |-> "inf"] ELSE Over(CHOOSE m \in rng : \A y \in rng : m <= y)
 \* [st |-> "inf"] | [st |-> "unb"] | [st |-> "opt", v |-> optimal objective in the user's sense]
 Verdict(ev) == LET r == Enum(ev, <<>>, 1) IN
@@ -137,10 +137,15 @@ CoarseProblems(ev) ==
    \cup (IF CAbs(CLhs(ev, ev.obj) + ev.off * CS - ev.sol.value.c * ev.den) > CSlack(ev, ev.obj)
          THEN {"reported value is not the objective at the point (coarse)"} ELSE {})
 Usable(ev) == ev.sol.value.ok /\ \A j \in 1..Len(ev.sol.point) : ev.sol.point[j].v.ok
+SimplexBasedEntry(ev) == ev.entry # "clarabel"
 PointProblems(ev) ==
    IF ~Complete(ev) THEN {"not exactly one value per variable"}
    ELSE IF ~Usable(ev) THEN {"non-finite or huge value returned"}
-   ELSE IF AllSnapped(ev) THEN ExactProblems(ev) ELSE CoarseProblems(ev)
+   \* the exact path reads a float as the unique small-denominator rational next to it: right for
+   \* vertex solutions (simplex-based entry points), wrong for an interior-point answer, whose
+   \* coordinates on a non-vertex optimal face are arbitrary reals that a rational may sit next to by
+   \* chance; those answers are always judged with the tolerance of the coarse path
+   ELSE IF AllSnapped(ev) /\ SimplexBasedEntry(ev) THEN ExactProblems(ev) ELSE CoarseProblems(ev)
 
 ---------------------------------------------------------------------------
 (* C05: the verdict *)
